@@ -20,4 +20,16 @@ PROPS = {
              assumptions=["block-time differences below 2^63 ns (Go Duration saturation not modelled)",
                           "sdk.Dec 315-bit overflow panics not modelled",
                           "generators keep (elapsed time / step duration) small: the Go code loops once per passed step"]),
+    "C03": P(["C4E.Props.C03"], ["C4E.Props.C03"],
+             [("distr", 250, 4000), ("distrfaults", 120, 2000)],
+             {"d.bb": ["states", "main", "inv"], "d.setparams": "*", "d.validate": "*"},
+             assumptions=["multi-denomination lift of the single-denomination core theorem is by correspondence, not proved",
+                          "account ids in generated configurations are ASCII (Lean String order = Go byte order)"]),
+    "C04": P(["C4E.Props.C04"], ["C4E.Props.C04"],
+             [("distr", 300, 4000)],
+             {"d.bb": ["states", "main", "bal", "burned"], "d.setparams": "*"},
+             exact_ops=["d.bb"]),
+    "C14": P(["C4E.Props.C14"], ["C4E.Props.C14"],
+             [("distrfaults", 300, 5000)],
+             {"d.bb": ["states", "main", "bal", "inv", "calls"], "d.setparams": "*"}),
 }
